@@ -304,11 +304,13 @@ pub fn audit_c02(run: &Run, rng: &mut Rng, rep: &mut Report) {
     Ok(Ok(None)) => {}
     other => rep.violation("C02/find-range/unmined-range-found", format!("height {h}: find_range over the mined end = {:?}", other.map(|r| r.map(|o| o.map(|v| v.len())))), run.replay.clone()),
   }
-  // rare-sat table: exactly the uncommon range starts, at the table's satpoints
+  // rare-sat table: exactly the uncommon range starts, at the table's satpoints.
+  // "Uncommon" is decided by the harness's own epoch table (first sat of a
+  // block), not by Sat::common(), which is code under test (C29).
   match run.index.rare_sat_satpoints() {
     Ok(rare) => {
       rep.eval();
-      let want: BTreeMap<u64, (OutPoint, u64)> = table.iter().filter(|(a, _, _, _)| !Sat(*a).common()).map(|(a, _, op, off)| (*a, (*op, *off))).collect();
+      let want: BTreeMap<u64, (OutPoint, u64)> = table.iter().filter(|(a, _, _, _)| crate::props::c29::ref_locate(*a).1 == 0).map(|(a, _, op, off)| (*a, (*op, *off))).collect();
       let got: BTreeMap<u64, (OutPoint, u64)> = rare.iter().map(|(s, sp)| (s.0, (sp.outpoint, sp.offset))).collect();
       for (s, loc) in &got {
         match want.get(s) {
